@@ -372,21 +372,34 @@ where
         confirmed: bool,
     ) -> Result<SendResponse, Error<R::PhyError>> {
         // Prepare transmission buffer
-        let (tx_config, rx_windows, _fcnt_up) = self.mac.send::<G, N>(
+        let (tx_config, rx_windows, fcnt_up) = self.mac.send::<G, N>(
             &mut self.rng,
             &mut self.radio_buffer,
             &SendData { data, fport, confirmed },
         )?;
         // Transmit our data packet
-        let ms = self
-            .radio
-            .tx(tx_config, self.radio_buffer.as_ref_for_read())
-            .await
-            .map_err(Error::Radio)?;
+        let ms = match self.radio.tx(tx_config, self.radio_buffer.as_ref_for_read()).await {
+            Ok(ms) => ms,
+            Err(e) => {
+                // the radio may have transmitted (part of) the frame: its counter is spent
+                if self.mac.abort_uplink(fcnt_up) {
+                    return Ok(SendResponse::SessionExpired);
+                }
+                return Err(Error::Radio(e));
+            }
+        };
 
         // Wait for received data within window
         self.timer.reset();
-        Ok(self.rx_downlink(&Frame::Data, ms, &rx_windows).await?.into())
+        match self.rx_downlink(&Frame::Data, ms, &rx_windows).await {
+            Ok(response) => Ok(response.into()),
+            Err(e) => {
+                if self.mac.abort_uplink(fcnt_up) {
+                    return Ok(SendResponse::SessionExpired);
+                }
+                Err(e)
+            }
+        }
     }
 
     /// Take the downlink data from the device. This is typically called after a
